@@ -220,6 +220,25 @@ func rootOf(v ssa.Value, loads int, seen map[ssa.Value]bool) (rootKind, int) {
 		if b, ok := x.Call.Value.(*ssa.Builtin); ok && b.Name() == "append" {
 			return rootOf(x.Call.Args[0], loads, seen)
 		}
+		// a constructor of the module: every return hands out an object allocated in it
+		if callee := x.Call.StaticCallee(); callee != nil && fnInModule(callee) && len(callee.Blocks) > 0 && len(seen) < 40 {
+			all, n := true, 0
+			for _, b := range callee.Blocks {
+				if ret, ok := b.Instrs[len(b.Instrs)-1].(*ssa.Return); ok && len(ret.Results) >= 1 {
+					n++
+					k, _ := rootOf(ret.Results[0], 0, seen)
+					if k != rFresh && k != rFreshHeap {
+						all = false
+					}
+				}
+			}
+			if all && n > 0 {
+				if loads == 0 {
+					return rFresh, 0
+				}
+				return rFreshHeap, 0
+			}
+		}
 		return rUnknown, 0
 	}
 	return rUnknown, 0
